@@ -2,7 +2,7 @@
     (calcWrapTimes + generateTimelineEntries) is the window [first, last] of the looped
     timeline; every listed segment is answered by the model of the segment server at the same
     instant and the next one is too early (C02); the window edges only move forward (C05). *)
-From Verif Require Import GoSem GoSemFacts Timeline TimelineProofs Window.
+From Verif Require Import GoSem GoSemFacts Timeline TimelineProofs Publish Window.
 From Coq Require Import ZifyBool.
 Ltac Zify.zify_post_hook ::= Z.div_mod_to_equations.
 
@@ -36,6 +36,11 @@ Proof.
   - cbn. do 2 f_equal. lia.
   - change (expandEntry t d (Datatypes.S (Datatypes.S k))) with ((t, d) :: expandEntry (t + d) d (Datatypes.S k)).
     rewrite IH. cbn [expandEntry app]. do 4 f_equal. lia.
+Qed.
+
+Lemma round_div_grid x d : 0 < d -> round_div (x * d) d = x.
+Proof.
+  intros Hd. unfold round_div. symmetry. apply (Z.div_unique _ _ _ d); lia.
 Qed.
 
 Section Win.
@@ -613,6 +618,233 @@ Proof.
     + exact (next_too_early_number c atoMS now Hnow Hato Ha Hs Hn).
 Qed.
 
+(** ** The entries are a function of the two edges alone *)
+
+Theorem timeline_eq c now tsbdMS atoMS :
+  startS c * 1000 <= now -> 0 <= tsbdMS -> 0 <= atoMS ->
+  generateTimelineEntries r (calcWrapTimes loopMS c now tsbdMS) atoMS
+  = windowEntries r (window_first r c atoMS now tsbdMS) (window_last r c atoMS now).
+Proof.
+  intros Hnow Htsbd Ha. pose proof HN as HN'.
+  unfold window_last, window_first.
+  destruct (calcWrapTimes_spec c now tsbdMS Hnow) as (Hw1 & Hw2 & Hw3 & Hw4).
+  set (ws := winStartMS c now tsbdMS) in *.
+  assert (Hws : startS c * 1000 <= ws <= now) by (unfold ws, winStartMS; lia).
+  pose proof (edge_tick c atoMS ws ltac:(lia) Ha) as Hs.
+  pose proof (edge_tick c atoMS now Hnow Ha) as Hn.
+  destruct (lastFin_spec (tick r c atoMS ws) ltac:(apply tick_nonneg; lia)) as (Hlfs & _ & _).
+  unfold generateTimelineEntries. rewrite Hw1, Hw2, Hw3, Hw4.
+  destruct (edgeIdx r ((ws - startS c * 1000) / loopMS) ((ws - startS c * 1000) mod loopMS) atoMS) as [sw0 si0].
+  destruct (edgeIdx r ((now - startS c * 1000) / loopMS) ((now - startS c * 1000) mod loopMS) atoMS) as [nw ni].
+  destruct Hs as [Hsi Hse]. destruct Hn as [Hni Hne].
+  set (lfs := lastFin r (tick r c atoMS ws)) in *. set (lfn := lastFin r (tick r c atoMS now)) in *.
+  clearbody lfs lfn.
+  assert (Hfirst : exists sw si, (if sw0 <? 0 then (0, 0) else (sw0, si0)) = (sw, si) /\
+                                 0 <= si < N /\ sw * N + si = Z.max 0 lfs).
+  { destruct (sw0 <? 0) eqn:Esw.
+    - exists 0, 0. split; [reflexivity|]. split; [lia|]. nia.
+    - exists sw0, si0. split; [reflexivity|]. split; [lia|]. nia. }
+  destruct Hfirst as (sw & si & -> & Hsi' & Hfe).
+  unfold windowEntries.
+  destruct (nw <? 0) eqn:Enw.
+  - destruct (lfn <? 0) eqn:El; [reflexivity|nia].
+  - destruct (lfn <? 0) eqn:El; [nia|].
+    set (first := Z.max 0 lfs) in *.
+    replace (nw * N + ni) with lfn by lia. rewrite Hfe.
+    assert (Ht : D * sw + st (segAt r si) = S r first).
+    { rewrite <- Hfe, S_at by lia. lia. }
+    assert (Hd : sdur (segAt r si) = E r first - S r first).
+    { rewrite <- Hfe, S_at, E_at by lia. unfold sdur. lia. }
+    rewrite Ht, Hd. reflexivity.
+Qed.
+
+Corollary mpdContent_eq c now tsbdMS atoMS :
+  startS c * 1000 <= now -> 0 <= tsbdMS -> 0 <= atoMS ->
+  mpdContent r loopMS c now tsbdMS atoMS
+  = (let se := windowEntries r (window_first r c atoMS now tsbdMS) (window_last r c atoMS now) in
+     (se_startNr se, se_entries se)).
+Proof. intros. unfold mpdContent. now rewrite timeline_eq. Qed.
+
+Corollary mpdPublish_eq c now tsbdMS atoMS :
+  startS c * 1000 <= now -> 0 <= tsbdMS -> 0 <= atoMS ->
+  mpdPublishMS r loopMS c now tsbdMS atoMS
+  = publishMS c (ts r) (windowEntries r (window_first r c atoMS now tsbdMS) (window_last r c atoMS now)) atoMS.
+Proof. intros. unfold mpdPublishMS. now rewrite timeline_eq. Qed.
+
+(** (a) two MPDs of one configuration with the same edges have the same content *)
+Theorem content_determined c atoMS now1 tsbd1 now2 tsbd2 :
+  startS c * 1000 <= now1 -> startS c * 1000 <= now2 -> 0 <= tsbd1 -> 0 <= tsbd2 -> 0 <= atoMS ->
+  window_first r c atoMS now1 tsbd1 = window_first r c atoMS now2 tsbd2 ->
+  window_last r c atoMS now1 = window_last r c atoMS now2 ->
+  mpdContent r loopMS c now1 tsbd1 atoMS = mpdContent r loopMS c now2 tsbd2 atoMS /\
+  mpdPublishMS r loopMS c now1 tsbd1 atoMS = mpdPublishMS r loopMS c now2 tsbd2 atoMS.
+Proof.
+  intros H1 H2 H3 H4 Ha Hf Hl. rewrite !mpdContent_eq, !mpdPublish_eq by assumption.
+  rewrite Hf, Hl. split; reflexivity.
+Qed.
+
+(** ** Constant segment duration *)
+
+Lemma const_dur_at d i : const_dur r d -> 0 <= i < N -> en (segAt r i) = st (segAt r i) + d.
+Proof.
+  intros Hc Hi. pose proof (forall_at _ _ Hc i Hi) as H. cbn beta in H. rewrite <- segAt_atL in H.
+  unfold sdur in H. lia.
+Qed.
+
+Lemma const_st d : const_dur r d -> forall i, 0 <= i < N -> st (segAt r i) = i * d.
+Proof.
+  intros Hc i [Hi Hlt]. revert Hlt. pattern i. apply natlike_ind; [| |exact Hi].
+  - intros _. rewrite (wf_zero _ _ W). lia.
+  - intros x Hx IH Hlt. specialize (IH ltac:(lia)).
+    replace (Z.succ x) with (x + 1) by lia.
+    rewrite <- (seg_contig r loopMS W x Hx ltac:(lia)), (const_dur_at d x Hc ltac:(lia)), IH. lia.
+Qed.
+
+Lemma const_d_pos d : const_dur r d -> 0 < d.
+Proof.
+  intros Hc. pose proof HN. pose proof (seg_pos r loopMS W 0 ltac:(lia)).
+  pose proof (const_dur_at d 0 Hc ltac:(lia)). lia.
+Qed.
+
+Lemma const_D d : const_dur r d -> D = N * d.
+Proof.
+  intros Hc. pose proof HN. rewrite (repDuration_en r loopMS W).
+  rewrite (const_dur_at d (N - 1) Hc ltac:(lia)), (const_st d Hc (N - 1) ltac:(lia)). lia.
+Qed.
+
+Lemma const_SE d n : const_dur r d -> 0 <= n -> S r n = n * d /\ E r n = (n + 1) * d.
+Proof.
+  intros Hc Hn. pose proof HN as HN'. unfold S, E.
+  pose proof (Z.mod_pos_bound n N HN') as Hm. pose proof (Z.div_mod n N ltac:(lia)) as Hdm.
+  rewrite (const_dur_at d _ Hc Hm), (const_st d Hc _ Hm), (const_D d Hc).
+  set (q := n / N) in *. set (m := n mod N) in *. clearbody q m. subst n. split; ring.
+Qed.
+
+(** ** (b) on the millisecond grid, with a time-shift buffer of whole segments, the first edge is
+    a function of the last edge *)
+
+Section Grid.
+Variables (d dms : Z).
+Hypothesis Hc : const_dur r d.
+Hypothesis Hg : d * 1000 = dms * ts r.
+
+Lemma dms_pos : 0 < dms.
+Proof. pose proof (const_d_pos d Hc). pose proof Hts. nia. Qed.
+
+Lemma E_grid n : 0 <= n -> E r n * 1000 = ((n + 1) * dms) * ts r.
+Proof.
+  intros Hn. rewrite (proj2 (const_SE d n Hc Hn)).
+  replace ((n + 1) * dms * ts r) with ((n + 1) * (dms * ts r)) by ring. rewrite <- Hg. ring.
+Qed.
+
+Lemma edge_step_ms c atoMS x n : 0 <= n ->
+  (n <= window_last r c atoMS x <-> (n + 1) * dms <= x - startS c * 1000 + atoMS).
+Proof.
+  intros Hn. rewrite (edge_step c atoMS x n Hn), (E_grid n Hn). pose proof Hts as Hts'.
+  set (A := (n + 1) * dms). set (Y := x - startS c * 1000 + atoMS). clearbody A Y. split; intros; nia.
+Qed.
+
+Lemma first_iff c atoMS now q m : 0 <= q -> 0 <= m -> startS c * 1000 <= now ->
+  (m <= window_last r c atoMS (winStartMS c now (q * dms)) <->
+   m + q <= window_last r c atoMS now \/ (m + 1) * dms <= atoMS).
+Proof.
+  intros Hq Hm Hnow. rewrite (edge_step_ms c atoMS _ m Hm), (edge_step_ms c atoMS now (m + q) ltac:(lia)).
+  unfold winStartMS. lia.
+Qed.
+
+Theorem first_follows_last c atoMS q now1 now2 :
+  0 <= q -> 0 <= atoMS -> startS c * 1000 <= now1 -> startS c * 1000 <= now2 ->
+  window_last r c atoMS now1 = window_last r c atoMS now2 ->
+  window_first r c atoMS now1 (q * dms) = window_first r c atoMS now2 (q * dms).
+Proof.
+  intros Hq Ha H1 H2 Hl. unfold window_first.
+  change (lastFin r (tick r c atoMS (winStartMS c now1 (q * dms))))
+    with (window_last r c atoMS (winStartMS c now1 (q * dms))).
+  change (lastFin r (tick r c atoMS (winStartMS c now2 (q * dms))))
+    with (window_last r c atoMS (winStartMS c now2 (q * dms))).
+  set (a := window_last r c atoMS (winStartMS c now1 (q * dms))).
+  set (b := window_last r c atoMS (winStartMS c now2 (q * dms))).
+  assert (Hab : forall m, 0 <= m -> (m <= a <-> m <= b)).
+  { intros m Hm. unfold a, b. rewrite !first_iff by assumption. rewrite Hl. reflexivity. }
+  destruct (Z.lt_ge_cases a 0) as [Ha0|Ha0]; destruct (Z.lt_ge_cases b 0) as [Hb0|Hb0].
+  - lia.
+  - pose proof (Hab b Hb0). lia.
+  - pose proof (Hab a Ha0). lia.
+  - pose proof (Hab a Ha0). pose proof (Hab b Hb0). lia.
+Qed.
+
+Lemma length_seqZ a n : length (seqZ a n) = n.
+Proof. revert a; induction n as [|n IH]; intros a; cbn [seqZ length]; [reflexivity|now rewrite IH]. Qed.
+
+(** publishTime in the grid case, and the position of [now] between two availability instants *)
+Lemma publish_pub c atoMS q now :
+  0 <= q -> 0 <= atoMS -> startS c * 1000 <= now -> 0 <= window_last r c atoMS now ->
+  let l := window_last r c atoMS now in
+  mpdPublishMS r loopMS c now (q * dms) atoMS
+  = Z.max (startS c * 1000) (startS c * 1000 + (l + 1) * dms - atoMS) /\
+  (l + 1) * dms <= now - startS c * 1000 + atoMS < (l + 2) * dms.
+Proof.
+  intros Hq Ha Hnow Hl. cbv zeta. pose proof dms_pos as Hdms. split.
+  - rewrite mpdPublish_eq by (try assumption; nia). unfold windowEntries, publishMS.
+    destruct (window_last r c atoMS now <? 0) eqn:El; [lia|].
+    set (first := window_first r c atoMS now (q * dms)).
+    assert (Hfl : first <= window_last r c atoMS now).
+    { destruct (timeline_is_window c now (q * dms) atoMS Hnow ltac:(nia) Ha) as [_ Hw]. cbv zeta in Hw.
+      apply (Hw Hl). }
+    assert (Hf0 : 0 <= first) by (unfold first, window_first; lia).
+    pose proof (tlLoop_spec (Z.to_nat (window_last r c atoMS now - first)) first (E r first - S r first) (S r first)
+                  {| e_t := S r first; e_d := E r first - S r first; e_r := 0 |} []
+                  (S r first) (E r first - S r first)
+                  Hf0 eq_refl eq_refl eq_refl eq_refl ltac:(cbn [e_r]; lia)
+                  ltac:(cbn [e_t e_r]; lia)) as [Hsnd _].
+    destruct (tlLoop r _ _ _ _ _ _ _ _ _) as [es [[ls ld] ln]]. cbn [fst snd] in Hsnd.
+    replace (first + Z.of_nat (Z.to_nat (window_last r c atoMS now - first))) with (window_last r c atoMS now) in Hsnd by lia.
+    injection Hsnd as -> -> ->. cbn [se_lsi_nr se_lsi_start se_lsi_dur]. rewrite El. unfold lsiAvailMS.
+    replace ((S r (window_last r c atoMS now) + (E r (window_last r c atoMS now) - S r (window_last r c atoMS now))) * 1000)
+      with (((window_last r c atoMS now + 1) * dms) * ts r) by (rewrite <- (E_grid _ Hl); ring).
+    rewrite round_div_grid by exact Hts.
+    set (X := (window_last r c atoMS now + 1) * dms). clearbody X.
+    destruct (X - atoMS + startS c * 1000 <? startS c * 1000) eqn:E1; lia.
+  - pose proof (edge_step_ms c atoMS now (window_last r c atoMS now) Hl) as Ha1.
+    pose proof (edge_step_ms c atoMS now (window_last r c atoMS now + 1) ltac:(lia)) as Ha2.
+    replace (window_last r c atoMS now + 1 + 1) with (window_last r c atoMS now + 2) in Ha2 by lia. lia.
+Qed.
+
+(** publishTime identifies the content: two MPDs (each with at least one segment) have the same
+    publishTime iff they have the same content *)
+Theorem publish_identifies_content c atoMS q now1 now2 :
+  0 <= q -> 0 <= atoMS -> startS c * 1000 <= now1 -> startS c * 1000 <= now2 ->
+  0 <= window_last r c atoMS now1 -> 0 <= window_last r c atoMS now2 ->
+  (mpdPublishMS r loopMS c now1 (q * dms) atoMS = mpdPublishMS r loopMS c now2 (q * dms) atoMS <->
+   mpdContent r loopMS c now1 (q * dms) atoMS = mpdContent r loopMS c now2 (q * dms) atoMS).
+Proof.
+  intros Hq Ha H1 H2 Hl1 Hl2. pose proof dms_pos as Hdms.
+  assert (Htsbd : 0 <= q * dms) by nia.
+  destruct (publish_pub c atoMS q now1 Hq Ha H1 Hl1) as [Hp1 Hb1].
+  destruct (publish_pub c atoMS q now2 Hq Ha H2 Hl2) as [Hp2 Hb2].
+  split.
+  - intros Hpub. rewrite Hp1, Hp2 in Hpub.
+    assert (Hl : window_last r c atoMS now1 = window_last r c atoMS now2).
+    { set (l1 := window_last r c atoMS now1) in *. set (l2 := window_last r c atoMS now2) in *.
+      clearbody l1 l2.
+      destruct (Z.lt_trichotomy l1 l2) as [Hlt|[Heq|Hgt]]; [|exact Heq|].
+      - assert ((l1 + 2) * dms <= (l2 + 1) * dms) by (apply Z.mul_le_mono_nonneg_r; lia). lia.
+      - assert ((l2 + 2) * dms <= (l1 + 1) * dms) by (apply Z.mul_le_mono_nonneg_r; lia). lia. }
+    apply content_determined; try assumption.
+    apply first_follows_last; assumption.
+  - intros Hcont.
+    destruct (timeline_is_window c now1 (q * dms) atoMS H1 Htsbd Ha) as [_ Hw1].
+    destruct (timeline_is_window c now2 (q * dms) atoMS H2 Htsbd Ha) as [_ Hw2].
+    cbv zeta in Hw1, Hw2. destruct (Hw1 Hl1) as (Hf1 & Hs1 & He1 & _). destruct (Hw2 Hl2) as (Hf2 & Hs2 & He2 & _).
+    unfold mpdContent in Hcont. injection Hcont as Hcs Hce.
+    rewrite Hs1, Hs2 in Hcs. rewrite Hce, He2, Hcs in He1.
+    apply (f_equal (@length _)) in He1. unfold window_td in He1. rewrite !map_length, !length_seqZ in He1.
+    assert (Hl : window_last r c atoMS now1 = window_last r c atoMS now2) by lia.
+    rewrite Hp1, Hp2, Hl. reflexivity.
+Qed.
+
+End Grid.
+
 End Win.
 
 (** * A listed first entry that is no longer served
@@ -679,12 +911,7 @@ Proof.
 Qed.
 
 (** * publishTime of the SegmentTimeline MPD (Publish.v) = availability instant of the live edge *)
-From Verif Require Import Publish.
 
-Lemma round_div_grid x d : 0 < d -> round_div (x * d) d = x.
-Proof.
-  intros Hd. unfold round_div. symmetry. apply (Z.div_unique _ _ _ d); lia.
-Qed.
 
 (** On the millisecond grid ([E last * 1000 = Ems * ts]) the publishTime is the instant
     start + Ems - ato at which the newest listed segment became available (never before the start
